@@ -95,6 +95,20 @@ CHECKS = {
          "controllers (API).",
     technique="TLA+ dependency-database model + TLC (incl. refinement of the call sequences); model-based replay on the real runtime; TLC trace validation",
     ref="5.17"),
+ "C08": dict(
+    level="model_checking",
+    text="Access.tla states, for every declaration set (7 sets over both flavours, inputs of every kind by kind and by id, "
+         "outputs), operation (get, getUncached, list, teardown-context, create, update, modify, teardown, destroy, add/remove "
+         "finalizer), target, pre-state of the target (absent / owned by self / other / nobody / with finalizer / tearing down) "
+         "and owner option, whether the operation is allowed and what its outcome class and effect must be; TLC enumerates the "
+         "complete matrix (2520 rows), checks every row (rejected => unchanged, created => stamped, foreign resources only with "
+         "an explicit owner) and emits it; every row (thorough) or a seeded quarter (quick) is executed through the real "
+         "runtime adapters of a probe Controller / QController, with cached and uncached kinds, and the recorded outcome class "
+         "and resulting value are judged by TLC (TraceAccess.tla).",
+    note="Trusted: TLC, the error classification of harness/vh (an access denial is an unclassifiable error). One namespace; "
+         "write rate limiting not exercised.",
+    technique="TLA+ access matrix + TLC enumeration; exhaustive matrix replay through the real adapters; TLC trace validation",
+    ref="5.8"),
 }
 
 NOT_YET = "check not built yet in this round (planned, see DESIGN.md section 5)"
